@@ -284,7 +284,9 @@ def _line_splits(thorough):
         add("unknown_id_%s" % c, "3 c a a a a a", c, VP_ID_UNKNOWN=None)
     add("unknown_id_bare", "3 N", None, VP_ID_UNKNOWN=None, _mem=2)
     for c2 in ("NPn" if thorough else "N"):
-        add("pair_U_%s" % c2, "7 U a a a", None, VP_TMPL2='"7 c"', VP_CMD2="'%s'" % c2, VP_ID_LIVE=None)
+        # first line concrete (the symbolic part of these queries is the request's state): a stale
+        # argument pointer into the freed first line is then a small, quickly refuted formula
+        add("pair_U_%s" % c2, "7 U x y z", None, VP_TMPL2='"7 c"', VP_CMD2="'%s'" % c2, VP_ID_LIVE=None)
     if thorough:
         for c in cmds:
             n = nm.get(c, c)
